@@ -267,6 +267,11 @@ type Tokenizer struct {
 	// the same line only looks at the bytes after codeScanIndex.
 	codeScanIndex int
 	codeScanFound bool
+
+	// Byte index at which the token being returned by nextToken starts. nextToken may skip
+	// comments before it reaches the token, so the cursor saved by its caller is where the
+	// comment started.
+	tokenStart int
 }
 
 // New creates a new Tokenizer with default configuration and keyword support.
@@ -477,8 +482,6 @@ func (t *Tokenizer) Tokenize(input []byte) ([]models.TokenWithSpan, error) {
 				return
 			}
 
-			startPos := t.pos
-
 			token, err := t.nextToken()
 			if err != nil {
 				// nextToken returns structured errors, pass through directly
@@ -492,7 +495,7 @@ func (t *Tokenizer) Tokenize(input []byte) ([]models.TokenWithSpan, error) {
 
 			tw := models.TokenWithSpan{
 				Token: token,
-				Start: t.toSQLPosition(startPos),
+				Start: t.toSQLPosition(Position{Index: t.tokenStart}), // after any comments skipped on the way
 				End:   t.getCurrentPosition(),
 			}
 			if t.logger != nil && t.logger.Enabled(context.Background(), slog.LevelDebug) {
@@ -621,8 +624,6 @@ func (t *Tokenizer) TokenizeContext(ctx context.Context, input []byte) ([]models
 				return
 			}
 
-			startPos := t.pos
-
 			token, err := t.nextToken()
 			if err != nil {
 				// nextToken returns structured errors, pass through directly
@@ -636,7 +637,7 @@ func (t *Tokenizer) TokenizeContext(ctx context.Context, input []byte) ([]models
 
 			tw := models.TokenWithSpan{
 				Token: token,
-				Start: t.toSQLPosition(startPos),
+				Start: t.toSQLPosition(Position{Index: t.tokenStart}), // after any comments skipped on the way
 				End:   t.getCurrentPosition(),
 			}
 			if t.logger != nil && t.logger.Enabled(context.Background(), slog.LevelDebug) {
@@ -704,6 +705,9 @@ func (t *Tokenizer) skipWhitespace() {
 
 // nextToken picks out the next token from the input
 func (t *Tokenizer) nextToken() (models.Token, error) {
+	// A call made after a skipped comment overwrites this with the start of the real token
+	t.tokenStart = t.pos.Index
+
 	if t.pos.Index >= len(t.input) {
 		return models.Token{Type: models.TokenTypeEOF}, nil
 	}
